@@ -999,6 +999,276 @@ Section Proofs.
   Proof.
     intros i j Hi Hj. unfold mpm_simple. rewrite !(get_mk o) by assumption. ring.
   Qed.
+  (* ================================================================ discrete-time models *)
+  Lemma suml_app (a b : list R) : suml o (a ++ b) = suml o a + suml o b.
+  Proof. induction a as [|x a IH]; cbn; [ring|]. rewrite IH. ring. Qed.
+
+  (** the proportions always add up to the total — for every ratio vector (and any fuel) *)
+  Theorem ratios_to_proportions_sum fuel : forall total params,
+    suml o (ratios_to_proportions o fuel total params) = total.
+  Proof.
+    induction fuel as [|f IH]; intros total params; cbn [ratios_to_proportions]; [cbn; ring|].
+    destruct params as [|r0 rest]; [cbn; ring|].
+    cbv zeta. rewrite suml_app, !IH. unfold fsub. ring.
+  Qed.
+
+  (** every row of a BH/DT transition matrix sums to one under the code's parameterisation *)
+  Theorem psub_row_sums_to_one ratios : suml o (psub_row o ratios) = 1.
+  Proof. apply ratios_to_proportions_sum. Qed.
+
+  (* ================================================================ General (non-stationary, one rate per cell) *)
+  Lemma take_pick_get n params pick a b : (a < n)%nat -> (b < n)%nat ->
+    get o (take_pick o n params pick) a b = nth (nth b (nth a pick []) 0%nat) (0 :: params ++ [1]) 0.
+  Proof. intros Ha Hb. unfold take_pick. now rewrite (get_mk o). Qed.
+
+  Lemma lscale_rows_zero n t Ql : rate_rows_zero o n (get o Ql) -> rate_rows_zero o n (get o (lscale o n t Ql)).
+  Proof.
+    intros H0 i Hi. rewrite (@sumn_ext R o n _ (fun j => t * get o Ql i j)).
+    - rewrite (sumn_mul_l L n t (fun j => get o Ql i j)), (H0 i Hi). ring.
+    - intros j Hj. now rewrite (lscale_get n t Ql i j Hi Hj).
+  Qed.
+
+  (** ns_substitution_model.General: Q = calcQ(take(param_pick)) is a calibrated generator for every
+      parameter vector, and every Taylor / scaling-and-squaring transition matrix of it is row-stochastic *)
+  Theorem general_pick_model n params pick wpl :
+    (forall a, (a < n)%nat -> nth a (nth a pick []) 0%nat = 0%nat) ->
+    let Rl := take_pick o n params pick in
+    let Ql := calcQ_general o n wpl Rl in
+    rate_rows_zero o n (get o Ql) /\
+    (sum n (fun i => vget o wpl i * row_total o n (get o Rl) i) <> 0 -> calibrated o n (vget o wpl) (get o Ql)) /\
+    (forall t s terms, row_stochastic o n (get o (expm_ss o n (lscale o n t Ql) s terms))).
+  Proof.
+    intros Hd Rl Ql.
+    assert (HR : rate_rows_zero o n (get o Ql)).
+    { eapply rate_rows_zero_ext; [apply meq_sym, calcQ_general_get|apply calcQ_rows_zero]. }
+    split; [exact HR|split].
+    - intros Hs. eapply calibrated_ext; [apply meq_sym, calcQ_general_get|].
+      apply calcQ_calibrated; [|exact Hs]. intros a Ha. unfold Rl. rewrite take_pick_get by assumption.
+      now rewrite (Hd a Ha).
+    - intros t s terms. apply expm_ss_row_stochastic. now apply lscale_rows_zero.
+  Qed.
+
+  (* ================================================================ GeneralStationary *)
+  Variable neg : R -> bool.
+  Variable near0 : R -> bool.
+  (** the allclose-to-zero clause never flips a sign (true of exact arithmetic: near0 x -> x = 0) *)
+  Hypothesis near0_neg : forall x, near0 x = true -> neg x = false.
+
+  Lemma get_lset n Rl i j (x : R) a b : (a < n)%nat -> (b < n)%nat ->
+    get o (lset o n Rl i j x) a b = if Nat.eqb a i && Nat.eqb b j then x else get o Rl a b.
+  Proof. intros Ha Hb. unfold lset. now rewrite (get_mk o). Qed.
+
+  Lemma gs_required_ext n mp A B j :
+    (forall k, (k < n)%nat -> A j k = B j k) -> (forall k, (k < n)%nat -> A k j = B k j) ->
+    gs_required o n mp A j = gs_required o n mp B j.
+  Proof.
+    intros E1 E2. unfold gs_required.
+    rewrite (@sumn_ext R o n (fun k => mp k * A j k) (fun k => mp k * B j k)) by (intros k Hk; now rewrite E1).
+    rewrite (@sumn_ext R o n (fun k => mp k * A k j) (fun k => mp k * B k j)) by (intros k Hk; now rewrite E2).
+    reflexivity.
+  Qed.
+
+  Lemma gs_required_lset n mp Rl m j (x : R) b : (b < n)%nat -> b <> m -> b <> j ->
+    gs_required o n mp (get o (lset o n Rl m j x)) b = gs_required o n mp (get o Rl) b.
+  Proof.
+    intros Hb Hm Hj. apply gs_required_ext; intros k Hk; rewrite get_lset by assumption.
+    - apply Nat.eqb_neq in Hm. now rewrite Hm.
+    - apply Nat.eqb_neq in Hj. now rewrite Hj, andb_false_r.
+  Qed.
+
+  Lemma gs_fold_none n mp lic : fold_left (gs_step o neg near0 n mp) lic None = None.
+  Proof. induction lic as [|x l IH]; cbn; [reflexivity|exact IH]. Qed.
+
+  Lemma gs_step_some n mp Rl m j :
+    gs_step o neg near0 n mp (Some Rl) (m, j) =
+    let req := gs_required o n (vget o mp) (get o Rl) j in
+    if neg req then None else Some (lset o n Rl m j (req / vget o mp m)).
+  Proof.
+    cbn [gs_step fst snd]. cbv zeta.
+    set (req := gs_required o n (vget o mp) (get o Rl) j).
+    destruct (near0 req) eqn:E; [|reflexivity].
+    assert (N := near0_neg E). rewrite !N. reflexivity.
+  Qed.
+
+  (** what the loop over last_in_column = [(m, j) | j in js] leaves behind when it does not refuse *)
+  Lemma gs_loop_some n mp m js : forall Rl Rf,
+    NoDup js -> ~ In m js -> (forall j, In j js -> (j < n)%nat) -> (m < n)%nat ->
+    gs_loop o neg near0 n mp (map (pair m) js) Rl = Some Rf ->
+    (forall b, In b js -> get o Rf m b = gs_required o n (vget o mp) (get o Rl) b / vget o mp m) /\
+    (forall a b, (a < n)%nat -> (b < n)%nat -> ~ (a = m /\ In b js) -> get o Rf a b = get o Rl a b) /\
+    (forall b, In b js -> neg (gs_required o n (vget o mp) (get o Rl) b) = false).
+  Proof.
+    unfold gs_loop. induction js as [|j js IH]; intros Rl Rf ND Hm Hlt Hmn H.
+    - cbn in H. injection H as <-. repeat split; intros; try contradiction; reflexivity.
+    - cbn [map fold_left] in H. rewrite gs_step_some in H. cbv zeta in H.
+      set (req := gs_required o n (vget o mp) (get o Rl) j) in *.
+      destruct (neg req) eqn:En; [rewrite gs_fold_none in H; discriminate|].
+      set (Rl' := lset o n Rl m j (req / vget o mp m)) in *.
+      inversion ND as [|? ? Hnj ND']; subst.
+      assert (Hm' : ~ In m js) by (intro; apply Hm; now right).
+      assert (Hjm : j <> m) by (intro; apply Hm; now left).
+      assert (Hjn : (j < n)%nat) by (apply Hlt; now left).
+      destruct (IH Rl' Rf ND' Hm' (fun b Hb => Hlt b (or_intror Hb)) Hmn H) as (I1 & I2 & I3).
+      assert (Req : forall b, In b js -> gs_required o n (vget o mp) (get o Rl') b = gs_required o n (vget o mp) (get o Rl) b).
+      { intros b Hb. apply gs_required_lset.
+        - apply Hlt; now right.
+        - intro; subst; contradiction.
+        - intro; subst; contradiction. }
+      repeat split.
+      + intros b [Hb|Hb].
+        * subst b. rewrite (I2 m j Hmn Hjn) by (intros [_ Hin]; contradiction).
+          unfold Rl'. rewrite get_lset by assumption. now rewrite !Nat.eqb_refl.
+        * rewrite (I1 b Hb). now rewrite Req.
+      + intros a b Ha Hb Hnot.
+        rewrite (I2 a b Ha Hb) by (intros [Ham Hin]; apply Hnot; split; [assumption|now right]).
+        unfold Rl'. rewrite get_lset by assumption.
+        destruct (Nat.eqb a m) eqn:E1; destruct (Nat.eqb b j) eqn:E2; cbn; try reflexivity.
+        apply Nat.eqb_eq in E1, E2. exfalso. apply Hnot. split; [assumption|now left].
+      + intros b [Hb|Hb]; [subst b; exact En|]. rewrite <- Req by assumption. now apply I3.
+  Qed.
+
+  (** ... and it refuses as soon as the requirement of SOME dependent column is negative *)
+  Theorem gs_loop_refuses n mp m js : forall Rl,
+    NoDup js -> ~ In m js -> (forall j, In j js -> (j < n)%nat) ->
+    (exists b, In b js /\ neg (gs_required o n (vget o mp) (get o Rl) b) = true) ->
+    gs_loop o neg near0 n mp (map (pair m) js) Rl = None.
+  Proof.
+    unfold gs_loop. induction js as [|j js IH]; intros Rl ND Hm Hlt (b & Hb & Hneg); [contradiction|].
+    cbn [map fold_left]. rewrite gs_step_some. cbv zeta.
+    destruct (neg (gs_required o n (vget o mp) (get o Rl) j)) eqn:En; [apply gs_fold_none|].
+    inversion ND as [|? ? Hnj ND']; subst.
+    destruct Hb as [Hb|Hb]; [subst b; congruence|].
+    apply IH; try assumption.
+    - intro; apply Hm; now right.
+    - intros x Hx; apply Hlt; now right.
+    - exists b. split; [assumption|]. rewrite gs_required_lset; try assumption.
+      + apply Hlt; now right.
+      + intro; subst; apply Hm; now right.
+      + intro; subst; contradiction.
+  Qed.
+
+  (** Σ_b π_b (row_b - col_b) = 0 for every matrix *)
+  Lemma gs_required_total n mp A : sum n (fun b => mp b * gs_required o n mp A b) = 0.
+  Proof.
+    unfold gs_required.
+    assert (T1 : forall b, mp b * sum n (fun k => mp k * A b k) = sum n (fun k => mp b * mp k * A b k)).
+    { intros b. rewrite <- (sumn_mul_l L). apply (sumn_ext o); intros; ring. }
+    assert (T2 : forall b, mp b * sum n (fun k => mp k * A k b) = sum n (fun k => mp k * mp b * A k b)).
+    { intros b. rewrite <- (sumn_mul_l L). apply (sumn_ext o); intros; ring. }
+    rewrite (@sumn_ext R o n _ (fun b => sum n (fun k => mp b * mp k * A b k) + fopp o (sum n (fun k => mp k * mp b * A k b)))).
+    2:{ intros b Hb. rewrite <- (T1 b), <- (T2 b). unfold fsub. ring. }
+    rewrite (sumn_add L), (sumn_opp L), (sumn_swap L n n (fun b k => mp k * mp b * A k b)).
+    ring.
+  Qed.
+
+  (** column balance (Σ_i π_i R_ij = Σ_k R_jk π_k for every j) is exactly what makes π stationary
+      for StationaryQ.calcQ — no symmetry of R is needed *)
+  Theorem column_balance_stationary n wp Rm :
+    (forall j, (j < n)%nat -> gs_required o n wp Rm j = 0) ->
+    stationary o n wp (calcQ_f o n wp (hadamard o Rm (fun _ j => wp j))).
+  Proof.
+    intros HB j Hj. unfold calcQ_f.
+    set (X := hadamard o Rm (fun _ j0 => wp j0)).
+    set (sc := 1 / sum n (fun i => wp i * row_total o n X i)).
+    rewrite (@sumn_ext R o n _ (fun i => sc * (wp i * X i j) + (if Nat.eqb i j then fopp o (sc * (wp i * row_total o n X i)) else 0))).
+    2:{ intros i Hi. destruct (Nat.eqb i j); unfold fsub; ring. }
+    rewrite (sumn_add L), (sumn_mul_l L), (sumn_delta L (fun i => fopp o (sc * (wp i * row_total o n X i))) Hj).
+    assert (E : sum n (fun i => wp i * X i j) = wp j * row_total o n X j).
+    { unfold X, hadamard, row_total. specialize (HB j Hj). unfold gs_required in HB.
+      assert (HB' : sum n (fun k => wp k * Rm k j) = sum n (fun k => wp k * Rm j k)).
+      { transitivity (sum n (fun k => wp k * Rm k j) + 0); [ring|]. rewrite <- HB. unfold fsub. ring. }
+      rewrite (@sumn_ext R o n _ (fun i => wp j * (wp i * Rm i j))) by (intros; ring).
+      rewrite (sumn_mul_l L), HB'. f_equal. apply (sumn_ext o); intros; ring. }
+    rewrite E. ring.
+  Qed.
+
+  Lemma sumn_split_eq n m (f g : nat -> R) : (m < n)%nat ->
+    (forall k, (k < n)%nat -> k <> m -> f k = g k) -> sum n f + g m = sum n g + f m.
+  Proof.
+    intros Hm H. rewrite (sumn_split L f Hm), (sumn_split L g Hm).
+    rewrite (@sumn_ext R o n (fun k => if Nat.eqb k m then 0 else f k) (fun k => if Nat.eqb k m then 0 else g k)).
+    - ring.
+    - intros k Hk. destruct (Nat.eqb k m) eqn:E; [reflexivity|]. apply Nat.eqb_neq in E. now apply H.
+  Qed.
+
+  (** GeneralStationary: when the guard passes for every dependent column, every column is balanced *)
+  Theorem gs_column_balance n mp m js Rl Rf :
+    NoDup js -> ~ In m js -> (forall j, In j js -> (j < n)%nat) -> (m < n)%nat ->
+    (forall b, (b < n)%nat -> b <> m -> In b js) ->
+    (forall b, In b js -> get o Rl m b = 0) ->
+    vget o mp m <> 0 ->
+    gs_loop o neg near0 n mp (map (pair m) js) Rl = Some Rf ->
+    forall j, (j < n)%nat -> gs_required o n (vget o mp) (get o Rf) j = 0.
+  Proof.
+    intros ND Hm Hlt Hmn Hcov H0 Hpm H.
+    destruct (gs_loop_some mp Rl ND Hm Hlt Hmn H) as (I1 & I2 & _).
+    assert (Bal : forall b, In b js -> gs_required o n (vget o mp) (get o Rf) b = 0).
+    { intros b Hb.
+      assert (Hbn : (b < n)%nat) by now apply Hlt.
+      assert (Hbm : b <> m) by (intro; subst; contradiction).
+      unfold gs_required.
+      assert (Row : sum n (fun k => vget o mp k * get o Rf b k) = sum n (fun k => vget o mp k * get o Rl b k)).
+      { apply (sumn_ext o); intros k Hk. rewrite (I2 b k Hbn Hk) by (intros [E _]; contradiction). reflexivity. }
+      assert (Col : sum n (fun k => vget o mp k * get o Rf k b)
+                    = sum n (fun k => vget o mp k * get o Rl k b) + vget o mp m * get o Rf m b
+                      + fopp o (vget o mp m * get o Rl m b)).
+      { assert (C := @sumn_split_eq n m (fun k => vget o mp k * get o Rf k b) (fun k => vget o mp k * get o Rl k b) Hmn).
+        cbv beta in C.
+        assert (C' := C (fun k Hk Hkm => f_equal (fun z => vget o mp k * z)
+                                           (I2 k b Hk Hbn (fun X : k = m /\ In b js => Hkm (proj1 X))))).
+        transitivity (sum n (fun k => vget o mp k * get o Rf k b) + vget o mp m * get o Rl m b
+                      + fopp o (vget o mp m * get o Rl m b)); [ring|].
+        rewrite C'. ring. }
+      rewrite Row, Col, (I1 b Hb), (H0 b Hb). unfold gs_required, fsub, fdiv.
+      set (ro := sum n (fun k => vget o mp k * get o Rl b k)).
+      set (co := sum n (fun k => vget o mp k * get o Rl k b)).
+      transitivity (ro + fopp o (co + (ro + fopp o co) * (vget o mp m * finv o (vget o mp m)))); [ring|].
+      rewrite (f_mul_inv_r L Hpm). ring. }
+    intros j Hj. destruct (Nat.eq_dec j m) as [->|Hjm]; [|apply Bal; now apply Hcov].
+    assert (T := gs_required_total n (vget o mp) (get o Rf)).
+    rewrite (sumn_split L (fun b => vget o mp b * gs_required o n (vget o mp) (get o Rf) b) Hmn) in T.
+    rewrite (@sumn_ext R o n _ (fun _ => 0)) in T.
+    - rewrite (sumn_zero L) in T. apply (f_integral L (a := vget o mp m)); [|exact Hpm].
+      rewrite <- T. ring.
+    - intros k Hk. destruct (Nat.eqb k m) eqn:E; [reflexivity|]. apply Nat.eqb_neq in E.
+      rewrite (Bal k (Hcov k Hk E)). ring.
+  Qed.
+
+  (** the assembled GeneralStationary model: zero rows, stationarity WITHOUT reversibility, calibration *)
+  Theorem general_stationary_model n mp m js Rl Rf :
+    NoDup js -> ~ In m js -> (forall j, In j js -> (j < n)%nat) -> (m < n)%nat ->
+    (forall b, (b < n)%nat -> b <> m -> In b js) ->
+    (forall b, In b js -> get o Rl m b = 0) ->
+    (forall a, (a < n)%nat -> get o Rl a a = 0) ->
+    vget o mp m <> 0 ->
+    gs_loop o neg near0 n mp (map (pair m) js) Rl = Some Rf ->
+    let Q := get o (calcQ_stationary o n mp (mpm_simple o n mp) Rf) in
+    rate_rows_zero o n Q /\ stationary o n (vget o mp) Q /\
+    (sum n (fun i => vget o mp i * row_total o n (hadamard o (get o Rf) (get o (mpm_simple o n mp))) i) <> 0 ->
+     calibrated o n (vget o mp) Q).
+  Proof.
+    intros ND Hm Hlt Hmn Hcov H0 Hd Hpm H Q.
+    assert (E : meq n (hadamard o (get o Rf) (get o (mpm_simple o n mp))) (hadamard o (get o Rf) (fun _ j => vget o mp j))).
+    { intros a b Ha Hb. unfold hadamard, mpm_simple. now rewrite (get_mk o). }
+    assert (EQ : meq n Q (calcQ_f o n (vget o mp) (hadamard o (get o Rf) (fun _ j => vget o mp j)))).
+    { eapply meq_trans; [apply calcQ_stationary_get|].
+      intros a b Ha Hb. unfold calcQ_f.
+      assert (RT : forall k, (k < n)%nat -> row_total o n (hadamard o (get o Rf) (get o (mpm_simple o n mp))) k
+                                       = row_total o n (hadamard o (get o Rf) (fun _ j => vget o mp j)) k).
+      { intros k Hk. unfold row_total. apply (sumn_ext o); intros l Hl. now apply E. }
+      rewrite (@sumn_ext R o n (fun i => vget o mp i * row_total o n (hadamard o (get o Rf) (get o (mpm_simple o n mp))) i)
+                 (fun i => vget o mp i * row_total o n (hadamard o (get o Rf) (fun _ j => vget o mp j)) i))
+        by (intros k Hk; now rewrite RT).
+      rewrite (RT a Ha), (E a b Ha Hb). reflexivity. }
+    destruct (gs_loop_some mp Rl ND Hm Hlt Hmn H) as (_ & I2 & _).
+    split; [|split].
+    - eapply rate_rows_zero_ext; [apply meq_sym, calcQ_stationary_get|apply calcQ_rows_zero].
+    - eapply stationary_ext; [apply meq_sym, EQ|]. apply column_balance_stationary.
+      exact (@gs_column_balance n mp m js Rl Rf ND Hm Hlt Hmn Hcov H0 Hpm H).
+    - intros Hs. eapply calibrated_ext; [apply meq_sym, calcQ_stationary_get|].
+      apply calcQ_calibrated; [|exact Hs]. apply hadamard_diag0. intros a Ha.
+      rewrite (I2 a a Ha Ha) by (intros [-> Hin]; contradiction). now apply Hd.
+  Qed.
 End Proofs.
 
 (* ==================================================================== ordered fields *)
@@ -1068,6 +1338,55 @@ Section Ordered.
     (forall i j, (i < n)%nat -> (j < n)%nat -> 0 <= B i j) ->
     forall i j, (i < n)%nat -> (j < n)%nat -> 0 <= hadamard o A B i j.
   Proof. intros HA HB i j Hi Hj. unfold hadamard. apply le_mul; auto. Qed.
+  Lemma Forall_firstn_c05 (A : Type) (P : A -> Prop) k : forall l : list A, Forall P l -> Forall P (firstn k l).
+  Proof. induction k as [|k IH]; intros [|x l] H; cbn; try constructor; inversion H; subst; auto. Qed.
+  Lemma Forall_skipn_c05 (A : Type) (P : A -> Prop) k : forall l : list A, Forall P l -> Forall P (skipn k l).
+  Proof. induction k as [|k IH]; intros [|x l] H; cbn; try assumption; try constructor. inversion H; subst; auto. Qed.
+
+  (** ... and its entries are non-negative for non-negative ratios *)
+  Theorem ratios_to_proportions_nonneg fuel : forall total params,
+    0 <= total -> Forall (fun r => 0 <= r /\ r + 1 <> 0) params ->
+    Forall (fun x => 0 <= x) (ratios_to_proportions o fuel total params).
+  Proof.
+    induction fuel as [|f IH]; intros total params Ht HF; cbn [ratios_to_proportions]; [now repeat constructor|].
+    destruct params as [|r0 rest]; [now repeat constructor|].
+    cbv zeta. inversion HF as [|? ? [Hr Hne] HF']; subst.
+    assert (Hp : 0 <= 1 / (r0 + 1)).
+    { replace (1 / (r0 + 1)) with (finv o (r0 + 1)) by (unfold fdiv; ring). apply le_inv. apply le_add; assumption. }
+    assert (Hq : 0 <= fsub o 1 (1 / (r0 + 1))).
+    { replace (fsub o 1 (1 / (r0 + 1))) with (r0 * finv o (r0 + 1)).
+      - apply le_mul; [assumption|]. apply le_inv. apply le_add; assumption.
+      - unfold fsub, fdiv. transitivity ((r0 + 1) * finv o (r0 + 1) + fopp o (1 * finv o (r0 + 1))); [ring|].
+        rewrite (f_mul_inv_r L Hne). reflexivity. }
+    apply Forall_app. split; apply IH.
+    - now apply le_mul.
+    - now apply Forall_firstn_c05.
+    - now apply le_mul.
+    - now apply Forall_skipn_c05.
+  Qed.
+
+  (* ---------------------------------------------------------------- GeneralStationary: signs *)
+  Variable neg : R -> bool.
+  Variable near0 : R -> bool.
+  Hypothesis near0_neg : forall x, near0 x = true -> neg x = false.
+  Hypothesis neg_sound : forall x, neg x = false -> 0 <= x.
+
+  (** when the guard passes for every dependent column, the completed exchangeability matrix is non-negative *)
+  Theorem gs_exchangeabilities_nonneg n mp m js Rl Rf :
+    NoDup js -> ~ In m js -> (forall j, In j js -> (j < n)%nat) -> (m < n)%nat ->
+    (forall a b, (a < n)%nat -> (b < n)%nat -> 0 <= get o Rl a b) ->
+    0 <= vget o mp m ->
+    gs_loop o neg near0 n mp (map (pair m) js) Rl = Some Rf ->
+    forall a b, (a < n)%nat -> (b < n)%nat -> 0 <= get o Rf a b.
+  Proof.
+    intros ND Hm Hlt Hmn H0 Hpm H a b Ha Hb.
+    destruct (@gs_loop_some R o neg near0 near0_neg n mp m js Rl Rf ND Hm Hlt Hmn H) as (I1 & I2 & I3).
+    destruct (Nat.eq_dec a m) as [->|Ham].
+    - destruct (in_dec Nat.eq_dec b js) as [Hin|Hnin].
+      + rewrite (I1 b Hin). unfold fdiv. apply le_mul; [apply neg_sound, I3, Hin|now apply le_inv].
+      + rewrite (I2 m b Ha Hb) by (intros [_ X]; contradiction). now apply H0.
+    - rewrite (I2 a b Ha Hb) by (intros [X _]; contradiction). now apply H0.
+  Qed.
 End Ordered.
 
 (* ==================================================================== non-vacuity: a concrete instance over Qc *)
@@ -1153,6 +1472,51 @@ Module Examples.
     suml Fq (map (fun wr => fmul Fq (fst wr) (snd wr))
                (combine [q 1 4; q 3 4] (monotonic Fq [q 1 4; q 3 4] [q 1 2; q 3 2]))) = fone Fq.
   Proof. apply (monotonic_mean_one Qc_fld_laws). qc_neq. Qed.
+
+  (** GeneralStationary over 4 states: rows T, C, A are free, row G is solved for (param_pick and
+      last_in_column as cogent3 builds them) *)
+  Definition gs_pick : list (list nat) :=
+    [[0; 1; 2; 3]; [4; 0; 6; 7]; [5; 8; 0; 9]; [0; 0; 0; 0]]%nat.
+  Definition gs_lic : list (nat * nat) := map (pair 3%nat) [0; 1; 2]%nat.
+  Definition pi_eq : list Qc := [q 1 4; q 1 4; q 1 4; q 1 4].
+  Definition ones9 : list Qc := repeat (q 1 1) 9.
+
+  Example gs_feasible_instance :
+    exists Rf, gs_loop Fq Qc_neg Qc_is0 4 pi_eq gs_lic (take_pick Fq 4 ones9 gs_pick) = Some Rf.
+  Proof.
+    destruct (gs_loop Fq Qc_neg Qc_is0 4 pi_eq gs_lic (take_pick Fq 4 ones9 gs_pick)) eqn:E; [now eexists|].
+    vm_compute in E. discriminate.
+  Qed.
+
+  (** every hypothesis of [general_stationary_model] is met by this instance *)
+  Example gs_instance_is_stationary :
+    forall Rf, gs_loop Fq Qc_neg Qc_is0 4 pi_eq gs_lic (take_pick Fq 4 ones9 gs_pick) = Some Rf ->
+    stationary Fq 4 (vget Fq pi_eq) (get Fq (calcQ_stationary Fq 4 pi_eq (mpm_simple Fq 4 pi_eq) Rf)).
+  Proof.
+    intros Rf H.
+    refine (proj1 (proj2 (@general_stationary_model Qc Fq Qc_fld_laws Qc_neg Qc_is0 Qc_is0_not_neg 4%nat pi_eq 3%nat [0; 1; 2]%nat
+                            (take_pick Fq 4 ones9 gs_pick) Rf _ _ _ _ _ _ _ _ H))).
+    - repeat constructor; cbn; intuition lia.
+    - cbn; intuition lia.
+    - cbn; intuition lia.
+    - lia.
+    - intros b Hb Hb3. cbn. lia.
+    - intros b Hb. destruct Hb as [<-|[<-|[<-|[]]]]; qc_eq.
+    - intros a Ha. idx4 a Ha; qc_eq.
+    - qc_neq.
+  Qed.
+
+  (** the seeded variant "feasibility guard after the loop" accepts a parameter vector the faithful model
+      refuses, and returns a NEGATIVE exchangeability (C>T = 10 makes column T infeasible, column A is fine) *)
+  Definition bad9 : list Qc := [q 1 1; q 1 1; q 1 1; q 10 1; q 1 1; q 1 1; q 1 1; q 1 1; q 1 1].
+  Example gs_guard_after_loop_unsound :
+    gs_exchangeability Fq Qc_neg Qc_is0 4 pi_eq bad9 gs_pick gs_lic = None /\
+    exists Rf, gs_exchangeability_guard_after_loop Fq Qc_neg Qc_is0 4 pi_eq bad9 gs_pick gs_lic = Some Rf /\
+               Qc_neg (get Fq Rf 3%nat 0%nat) = true.
+  Proof.
+    split; [vm_compute; reflexivity|].
+    eexists. split; [vm_compute; reflexivity|vm_compute; reflexivity].
+  Qed.
 
   (** the ordered-field hypotheses of the non-negativity theorems hold in Qc *)
   Example Qc_order_laws :
